@@ -36,6 +36,8 @@ func init() {
 			Run: func(P *Program, R *Report) { codecPairsRule(P, R) }},
 		Rule{ID: "C18.g", Explain: "written keys are accepted when read back: the key loaders refuse only for the specified reasons (decoder errors, missing mandatory elements, unknown modulus length, failed validation).",
 			Run: func(P *Program, R *Report) { treeRejectionsRule(P, R, "C18.g", "loadkeys", "the key loading call tree") }},
+		Rule{ID: "C18.h", Explain: "decoders do not write their input: in every Unmarshal*/Decode* method of the module the []byte (or string) it is given is never the target of a store, of copy(), or the destination argument of an encoding Decode/Read call - the same bytes are decoded again by the caller (ProofList.UnmarshalJSON tries two types on one raw message) and by json's own machinery.",
+			Run: func(P *Program, R *Report) { decodersKeepInputRule(P, R) }},
 		Rule{ID: "C18.f", Explain: "XML tags of PublicKey/PrivateKey: no duplicate or empty element names; every field that is not serialised (xml:\"-\") is recomputed by the loaders.",
 			Run: func(P *Program, R *Report) { xmlTagsRule(P, R) }},
 	)
@@ -552,4 +554,65 @@ func xmlTagsRule(P *Program, R *Report) {
 		}
 	}
 	_ = constant.MakeInt64
+}
+
+// decodersKeepInputRule (C18.h).
+func decodersKeepInputRule(P *Program, R *Report) {
+	rule := "C18.h"
+	n := 0
+	// destination-argument positions of library calls that write a byte slice they are given
+	dstArg := map[string]int{
+		"(*encoding/base64.Encoding).Decode": 1, "encoding/hex.Decode": 0, "builtin:copy": 0, "io.ReadFull": 1, "(*bytes.Reader).Read": 1,
+		"(encoding/binary.bigEndian).PutUint64": 1, "(encoding/binary.bigEndian).PutUint32": 1, "(encoding/binary.littleEndian).PutUint64": 1,
+	}
+	for _, fn := range P.AllFuncs {
+		if fn.Blocks == nil || fn.Signature.Recv() == nil {
+			continue
+		}
+		name := fn.Name()
+		if !strings.HasPrefix(name, "Unmarshal") && !strings.HasPrefix(name, "Decode") {
+			continue
+		}
+		// the byte-slice parameters
+		var inputs []*ssa.Parameter
+		for _, p := range fn.Params[1:] {
+			if sl, ok := p.Type().Underlying().(*types.Slice); ok {
+				if b, ok := sl.Elem().Underlying().(*types.Basic); ok && b.Kind() == types.Byte {
+					inputs = append(inputs, p)
+				}
+			}
+		}
+		if len(inputs) == 0 {
+			continue
+		}
+		n++
+		derived := func(v ssa.Value) bool {
+			for _, r := range sliceRoots(v) {
+				for _, p := range inputs {
+					if r == ssa.Value(p) {
+						return true
+					}
+				}
+			}
+			return false
+		}
+		ok := true
+		var why []string
+		allInstrs(fn, func(i ssa.Instruction) {
+			switch x := i.(type) {
+			case *ssa.Store:
+				if ia, isIA := x.Addr.(*ssa.IndexAddr); isIA && derived(ia.X) {
+					ok = false
+					why = append(why, P.Pos(x.Pos())+": store into the input bytes")
+				}
+			case *ssa.Call:
+				if k, has := dstArg[calleeName(x)]; has && k < len(x.Call.Args) && derived(x.Call.Args[k]) {
+					ok = false
+					why = append(why, P.Pos(x.Pos())+": "+calleeName(x)+" writes into the input bytes")
+				}
+			}
+		})
+		R.decide(rule, FuncKey(fn)+":input-preserved", "the decoder leaves the bytes it was given unchanged", ok, strings.Join(why, "\n"), P.Pos(fn.Pos()))
+	}
+	R.decide(rule, "decoders:count", "decoding methods with a byte-slice input were found (>= 8)", n >= 8, fmt.Sprintf("%d", n), "")
 }
